@@ -24,6 +24,9 @@ CLAIMS = {
  'C05': dict(technique="runtime monitoring: full conversion matrix compiled by the real compiler; accepted designs executed by vsim over all source values and compared with the property's decision table (must-reject classes + value rule)",
              text="Exploration: source type x qualifier x target type x 22 assignment forms (incl. view targets, Null/Full merges, local init, port connections); exhaustive over source values for widths <=3/4.",
              ref="2 C05"),
+ 'C06': dict(technique="runtime monitoring: every emitted text is parsed, elaborated and statically checked by vsim's conformance checker (names, scopes, typing, modes, case/select completeness, sensitivity, drivers) over hostile naming / expression / control-flow workloads",
+             text="Exploration: seeded hostile-name designs over 13 declaration kinds, all operator x type-pair expressions with run-time and constant operands, generated bodies and un-clocked processes; a differential re-run classifies enum-literal findings.",
+             ref="2 C06"),
  'C08': dict(technique="runtime monitoring: poison sanitizer in vsim (every compiler temporary is poisoned at the start of each process activation, reads are trapped) + independent path-enumeration oracle for must-reject placements",
              text="Exploration: every definition/use placement over small if/match/for-break skeletons incl. coroutine state crossings (small scope, exhaustive in thorough tier) and the C01/C03/C04 generators under the poison monitor.",
              ref="2 C08"),
